@@ -199,7 +199,7 @@ theorem evicts_lowest {U : Tx → Prop} (hw : WF U) {mp : Pool} (hi : Inv U mp) 
       t.id ∈ x.conflicts ∨ x.id ∈ t.conflicts ∨
       (x.oracle = t.oracle ∧ t.oracle ≠ none ∧ x.netFee < t.netFee) ∨
       (mp'.txs.length = mp'.capacity ∧ (∀ y ∈ mp'.txs, ge y x) ∧ 0 < compare t x)) := by
-  obtain ⟨_, _, _, h4, h5, h6⟩ := (add_spec hw hi ht feer hF d).2 mp' h
+  obtain ⟨_, _, _, h4, h5, h6, _⟩ := (add_spec hw hi ht feer hF d).2 mp' h
   exact ⟨h4, h5, h6⟩
 
 /-- C08 (ordering, insertion step): inserting at the index computed by `Add` (the "equal to the last → append"
